@@ -47,7 +47,7 @@ Definition k_run (sigs : list sigdesc) (ds : list pdesc) (tbs : list (list tbop)
   let st0 := init_state (map sd_init sigs) (map (mk_pstate sigs) ds) tbs in
   let orc := id_oracle (length ds) (length tbs) (length sigs) in
   let st := run ps orc SFUEL TFUEL t_end RFUEL st0 in
-  e_trace st ++ [-100] ++ currs (e_slots st).
+  flat_map (fun r => Z.of_nat (fst r) :: snd r) (e_trace st) ++ [-100] ++ currs (e_slots st).
 
 (* the same scenario under a different (rotated / reversed) family of orders: used by an Example only *)
 Definition rev_oracle (np nt ns : nat) : oracle :=
